@@ -41,6 +41,24 @@ characters a normalising layer would change).  Every emitted SKR must be read by
 document a standard XML parser reads (`ceremony_run.reader_mismatch`), its bytes must be exactly the UTF-8 text the model's
 writer (C11's `skrToXml`, driver kskm_driver_pkge) gives for the SKR the ceremony model writes, and the honest successor
 of an emitted SKR in the 'normal' schema must be accepted (all three also in the ASCII tree).
+XML-SPECIAL TEXT (`ceremony_run.XML_TEXT_PROFILES`): the same tree spelled with ZSK identifiers, request ids and bundle ids that
+hold entity / character references (`&amp;`, the doubly escaped `&amp;amp;`, `&lt;`, `&gt;`, `&quot;`, `&apos;`, `&#252;`,
+`&#x2d;`, an astral `&#x1F511;`), an apostrophe and a TAB, and ampersands that are no reference (`AT&T`, `&amp` without its
+semicolon, `&;` — such a KSR is not well-formed XML, the repository's reader accepts it all the same).  The repository's
+reader resolves no references and hands attribute text over VERBATIM; the next ceremony compares a new KSR's ids with what
+the previous SKR shows, both read that way.  Oracles: the emitted SKR ECHOES the KSR it answers — id, serial, domain, bundle
+ids, ZSK identifiers and keys — as the repository's own reader reads both (`ceremony_run.echo_mismatch`; every history, the
+ASCII tree included); its bytes are the model writer's text; the repository's reading equals the standard parser's once this
+harness's own transcription of XML 1.0 has resolved the references (`resolve_references`); a KSR re-using the previous
+REQUEST's id or one of its bundle ids — the RAW text that stood in the previous KSR (`Quarter.req_id / bundle_ids`) — is
+refused (`request-id-alone`, `bundle-id-alone-first/last`, `replayed` at every state); histories that are not well-formed XML
+are judged by reload / echo / bytes / the repository reader's neighbour relation (counted).
+IDENTIFIER RELATIONS (`ceremony_run.RELATED_TEXT_PROFILES`): KSK labels one a proper prefix of the other / differing only in
+case, ZSK identifiers that continue a KSK label, request ids each a proper prefix of the next (previous) quarter's.
+CONFIGURATION SECTIONS (`sections_stream`): the options named in two sections of the configuration (read off the pydantic
+models: num_bundles, validate_signatures in request_policy / response_policy) set to DIFFERENT values, with an honest
+previous SKR, previous SKRs whose first- / last-bundle signature does not verify, and a KSR whose proof of possession does
+not verify: the previous SKR is judged under response_policy, the KSR under request_policy.
 States are memoised: a refused ceremony leaves the state unchanged, so its subtree is its parent's.
 """
 
@@ -68,6 +86,9 @@ ASSUMPTIONS = [
     "the byte-for-byte comparison with the model writer's text lists the members of sets (signatures of a bundle, keys of equal tag, algorithms of a policy) in the order the written file shows: the iteration order of a Python set is not part of the property",
     "'the honest successor must be accepted' is demanded only in the quarterly routine (schema 'normal' after nothing but 'normal'); elsewhere the expected verdict is the model's",
     "header variation 'other-domain' widens request_policy.acceptable_domains for that one ceremony; an SKR accepted under it is judged but not used as a state of the tree",
+    "XML-special spellings: KSK labels and the domain stay plain (the configuration confines them to \\w / [\\w.]); 're-using an id' means sending the RAW attribute text of the previous KSR again; "
+    "a KSR with an ampersand that is no reference is not well-formed XML — the repository's reader accepts it verbatim, the SKR answering it is not well-formed either, and the ElementTree judges are replaced by the repository reader's own reading there",
+    "sections stream: with response_policy.validate_signatures false the operator has switched the previous SKR's signature check off (only its bundle count is demanded), likewise request_policy.validate_signatures for the KSR's proof of possession",
 ]
 TRUSTED = ["harness/p11emu.py token emulator (CKA_LABEL as a Python str, as PyKCS11 hands it over: UTF-8 on the wire)", "harness/ceremony_run.py entry-point driver and independent SKR judge (ElementTree, dnspython)", "lean/Kskm/SkrXml.lean (C11's writer model, driver kskm_driver_pkge) for the byte-for-byte comparison of written files"]
 
@@ -657,7 +678,11 @@ def run(tier: str, driver_ok: bool) -> Result:
         "changes (serial +1 / 0 / 2^31, another accepted domain, a day late) + the honest successor with another serial, complete at depth 1, sampled "
         "below; the same tree (smaller) in 4 non-ASCII spellings of KSK labels / ZSK identifiers / request and bundle ids; every emitted SKR: "
         "load_skr, independent validator, loader reading == XML reading, bytes == the model writer's UTF-8 text; the routine honest successor must "
-        "be accepted; policy-change histories: declared "
+        "be accepted; the same tree in 5 spellings with XML-special text handed over verbatim by the repository's reader (entity / character references, &amp;amp;, apostrophe + tab, "
+        "ampersands that are no reference) and 2 with identifiers related as strings (prefix, case), every kind of re-use (request id alone, bundle id first / last, replayed) at "
+        "every state: emitted SKR echoes the KSR as the repository's reader reads both, re-use of the previous request's raw ids refused; configuration sections: num_bundles / "
+        "validate_signatures of request_policy vs response_policy set apart x previous SKR honest / first- / last-bundle signature corrupted x KSR honest / proof of possession corrupted; "
+        "policy-change histories: declared "
         "Min/MaxValidityOverlap changes between consecutive KSRs (6 old->new profile pairs) x chain overlap on {-1s,0,+1s} around each changed old and "
         "new bound and their midpoint, publish safety PT0S; non-trivial = distinct (path, schema, variant, overlap, rotation, spelling)"
     )
@@ -672,7 +697,7 @@ def run(tier: str, driver_ok: bool) -> Result:
             explore(res, lib.rng("C10:" + text.name), runs, work, schemas, tier, text=text, budget=32 if quick else 100, depth_max=3, full=False)
         # XML-special content handed over verbatim, and identifiers related as strings: every kind of re-use at every state
         for text in list(R.XML_TEXT_PROFILES.values()) + list(R.RELATED_TEXT_PROFILES.values()):
-            explore(res, lib.rng("C10:" + text.name), runs, work, schemas, tier, text=text, budget=22 if quick else 80, depth_max=2 if quick else 3, full=False, must=tuple(REUSE_ALONE))
+            explore(res, lib.rng("C10:" + text.name), runs, work, schemas, tier, text=text, budget=22 if quick else 50, depth_max=2 if quick else 3, full=False, must=tuple(REUSE_ALONE))
         sections_stream(res, runs, work, schemas, tier)
         policy_change_stream(res, runs, work, schemas, tier)
         if driver_ok:
@@ -707,8 +732,16 @@ def run(tier: str, driver_ok: bool) -> Result:
                         whole = S.response_sorted_j(R.skr_document(x["file_after"]))
                     except Exception:  # noqa: BLE001  (reported as a violation by judge_written)
                         whole = None
-                    if whole is not None and S.response_sorted_j(writes[0]) != whole:
-                        res.disagreement("the file at the output path is not exactly the SKR the model writes", x["case"], x["outcome"], m["result"])
+                    mine = S.response_sorted_j(writes[0])
+                    prof = {**R.TEXT_PROFILES, **R.XML_TEXT_PROFILES, **R.RELATED_TEXT_PROFILES}.get(str(x["case"].get("text")))
+                    if prof is not None and prof.references:
+                        # the model's SKR holds the texts verbatim (as the repository's reader hands them over); a standard parser shows them with references resolved
+                        try:
+                            mine = S.response_sorted_j(R.resolve_document(mine))
+                        except ValueError:
+                            whole = None
+                    if whole is not None and mine != whole:
+                        res.disagreement("the file at the output path is not exactly the SKR the model writes", x["case"], x["outcome"], m["result"], first_difference=R.first_difference(mine, whole))
                     to_predict.append((x["case"], x["outcome"], writes[0], x["file_after"]))
             # the bytes at the output path against the model's WRITER (C11's skrToXml) applied to the SKR the ceremony model writes
             R.compare_written_bytes(res, to_predict)
